@@ -54,6 +54,18 @@ def apply(inst, op, ak="list"):
         a.known_by.add(e(op["x"]))
     elif k == "update":
         a.known_by.update(arg([e(n) for n in op["v"]], ak))
+    elif k == "remove":
+        a.knows.remove(e(op["x"]))
+    elif k == "pop":
+        a.knows.pop()
+    elif k == "delitem":
+        del a.knows[op["i"]]
+    elif k == "clear_list":
+        a.knows.clear()
+    elif k == "discard":
+        a.known_by.discard(e(op["x"]))
+    elif k == "clear_set":
+        a.known_by.clear()
     elif k == "assign_view_list":
         # a lazily evaluated iterable that reads the very field it is assigned to
         v = op["view"]
